@@ -161,7 +161,7 @@ func (h *H) Close() {
 func Main(prop string) {
 	fix.Quiet()
 	r := vf.Start(prop, "exploration")
-	nHist := r.Pick(48, 256)
+	nHist := r.Pick(48, 192)
 	nSteps := r.Pick(80, 300)
 	if v := os.Getenv("VERIF_HISTORIES"); v != "" {
 		fmt.Sscan(v, &nHist)
